@@ -731,6 +731,13 @@ def c20(tier, rep):
     rep.set("preemption_bound", pb)
     if any(d["capped"] for d in outs):
         rep.exhaustive = False
+    unc = sum(d.get("uncontrolled", 0) for d in outs)
+    rep.set("schedules_that_left_the_scheduler", unc)
+    if unc:
+        # an expansion blocked on a real lock held by the other (parked) expansion: that execution ran free from there on (its outputs
+        # are still compared); the interleavings behind it are not covered
+        rep.exhaustive = False
+        rep.assumptions.append("%d interleavings could not be controlled: an expansion blocked on a lock held by the concurrently running one (state shared between expansions); they ran free and their outputs were compared" % unc)
     rep.set("distinct_nontrivial", hist + sum(d["schedules"] for d in outs))
     # assumption check (reported, never judged): hidden state candidates in the sources
     cands = []
